@@ -16,8 +16,8 @@ pub type Handle = Subscriber<BoxObserver<'static, Val, Val>>;
 pub type HandleT = SubscriberThreads<BoxObserverThreads<Val, Val>>;
 
 thread_local! {
-  pub static HANDLES: RefCell<Vec<Handle>> = RefCell::new(vec![]);
-  pub static HANDLES_T: RefCell<Vec<HandleT>> = RefCell::new(vec![]);
+  pub static HANDLES: RefCell<Vec<(usize, Handle)>> = RefCell::new(vec![]);
+  pub static HANDLES_T: RefCell<Vec<(usize, HandleT)>> = RefCell::new(vec![]);
 }
 
 pub fn reset_handles() {
@@ -29,18 +29,31 @@ pub fn reset_handles() {
   }));
 }
 
-/// Hot input: `observable::create` whose subscriber handle is parked for the script.
+/// Hot input: `observable::create` whose subscriber handle is parked (under `tag`) for the script.
+pub fn hot_tagged(tag: usize) -> Obs {
+  observable::create(move |s: Handle| HANDLES.with(|h| h.borrow_mut().push((tag, s)))).box_it()
+}
+pub fn hot_tagged_t(tag: usize) -> ObsT {
+  observable::create(move |s: HandleT| HANDLES_T.with(|h| h.borrow_mut().push((tag, s)))).box_it()
+}
 pub fn hot() -> Obs {
-  observable::create(|s: Handle| HANDLES.with(|h| h.borrow_mut().push(s))).box_it()
+  hot_tagged(0)
 }
 pub fn hot_t() -> ObsT {
-  observable::create(|s: HandleT| HANDLES_T.with(|h| h.borrow_mut().push(s))).box_it()
+  hot_tagged_t(0)
 }
-pub fn handle(i: usize) -> Handle {
-  HANDLES.with(|h| h.borrow()[i].clone())
+/// the n-th handle parked under `tag` (one per subscription of that hot source)
+pub fn handle_nth(tag: usize, n: usize) -> Option<Handle> {
+  HANDLES.with(|h| h.borrow().iter().filter(|(t, _)| *t == tag).nth(n).map(|(_, h)| h.clone()))
 }
-pub fn handle_t(i: usize) -> HandleT {
-  HANDLES_T.with(|h| h.borrow()[i].clone())
+pub fn handle_t_nth(tag: usize, n: usize) -> Option<HandleT> {
+  HANDLES_T.with(|h| h.borrow().iter().filter(|(t, _)| *t == tag).nth(n).map(|(_, h)| h.clone()))
+}
+pub fn handle(tag: usize) -> Handle {
+  handle_nth(tag, 0).expect("hot source was not subscribed")
+}
+pub fn handle_t(tag: usize) -> HandleT {
+  handle_t_nth(tag, 0).expect("hot source was not subscribed")
 }
 pub fn handles_len() -> usize {
   HANDLES.with(|h| h.borrow().len())
@@ -148,3 +161,46 @@ macro_rules! catalogue {
 
 catalogue!(build, Obs, finalize);
 catalogue!(build_t, ObsT, finalize_threads);
+
+// ---------------------------------------------------------------- two-input combinators
+
+#[derive(Clone, Copy, Debug, PartialEq, Eq)]
+pub enum Op2 {
+  Merge,
+  Zip,
+  CombineLatest,
+  WithLatestFrom,
+  TakeUntil,
+  SkipUntil,
+  Sample,
+  Buffer,
+}
+
+pub const OPS2: &[Op2] = &[Op2::Merge, Op2::Zip, Op2::CombineLatest, Op2::WithLatestFrom, Op2::TakeUntil, Op2::SkipUntil, Op2::Sample, Op2::Buffer];
+
+pub fn build2(op: Op2, a: Obs, b: Obs) -> Obs {
+  match op {
+    Op2::Merge => a.merge(b).box_it(),
+    Op2::Zip => a.zip(b).map(|(x, y): (Val, Val)| Val::pair(x, y)).box_it(),
+    Op2::CombineLatest => a.combine_latest(b, |x: Val, y: Val| (x, y)).map(|(x, y): (Val, Val)| Val::pair(x, y)).box_it(),
+    Op2::WithLatestFrom => a.with_latest_from(b).map(|(x, y): (Val, Val)| Val::pair(x, y)).box_it(),
+    Op2::TakeUntil => a.take_until(b).box_it(),
+    Op2::SkipUntil => a.skip_until(b).box_it(),
+    Op2::Sample => a.sample(b).box_it(),
+    Op2::Buffer => a.buffer(b.map(|_: Val| ())).map(|v: Vec<Val>| Val::L(v)).box_it(),
+  }
+}
+
+pub fn build2_t(op: Op2, a: ObsT, b: ObsT) -> ObsT {
+  match op {
+    Op2::Merge => a.merge_threads(b).box_it(),
+    Op2::Zip => a.zip_threads(b).map(|(x, y): (Val, Val)| Val::pair(x, y)).box_it(),
+    Op2::CombineLatest => a.combine_latest_threads(b, |x: Val, y: Val| (x, y)).map(|(x, y): (Val, Val)| Val::pair(x, y)).box_it(),
+    Op2::WithLatestFrom => a.with_latest_from_threads(b).map(|(x, y): (Val, Val)| Val::pair(x, y)).box_it(),
+    Op2::TakeUntil => a.take_until_threads(b).box_it(),
+    Op2::SkipUntil => a.skip_until_threads(b).box_it(),
+    Op2::Sample => a.sample_threads(b).box_it(),
+    // buffer(notifier) has a single (MutArc-based) form
+    Op2::Buffer => a.buffer(b.map(|_: Val| ())).map(|v: Vec<Val>| Val::L(v)).box_it(),
+  }
+}
